@@ -41,15 +41,23 @@ class ModelFS:
         parts = []
         q = p
         while q not in self.dirs and q not in ("", "/"):
+            if q in self.files:
+                raise FileExistsError(q) if q == p else NotADirectoryError(q)   # a regular file where a directory is needed
             parts.append(q); q = posixpath.dirname(q)
+        if p in self.dirs and not exist_ok and not parts:
+            raise FileExistsError(p)
         for d in reversed(parts):
             self.dirs.add(d); self.log.append(("mkdir", d))
 
     def open(self, path, mode):
         if "w" in mode:
             self._pt("open-w", path)
+            if posixpath.dirname(path) in self.files:
+                raise NotADirectoryError(path)
             if posixpath.dirname(path) not in self.dirs:
                 raise FileNotFoundError(path)
+            if path in self.dirs:
+                raise IsADirectoryError(path)
             if path not in self.files:
                 self.log.append(("creat", path))
             self.log.append(("trunc", path))
@@ -64,6 +72,35 @@ class ModelFS:
         path = self.fds[fd]
         self._pt("fsync", path)
         self.log.append(("fsync", path))
+
+    # -- directory operations a refactored writer may use (write to a side file, then rename it over the target)
+    def replace(self, src, dst):
+        self._pt("rename", src)
+        if src not in self.files:
+            raise FileNotFoundError(src)
+        if dst in self.dirs:
+            raise IsADirectoryError(dst)
+        if posixpath.dirname(dst) not in self.dirs:
+            raise FileNotFoundError(dst)
+        self.files[dst] = self.files.pop(src)
+        for fd, pth in list(self.fds.items()):
+            if pth == src:
+                self.fds[fd] = dst                      # an open descriptor follows the file, not the name
+        self.log.append(("rename", src, dst))
+
+    def remove(self, path):
+        self._pt("unlink", path)
+        if path not in self.files:
+            raise FileNotFoundError(path)
+        del self.files[path]
+        self.log.append(("unlink", path))
+
+    def listdir(self, p):
+        p = p.rstrip("/") or "/"
+        if p not in self.dirs:
+            raise FileNotFoundError(p)
+        pre = p if p.endswith("/") else p + "/"
+        return sorted({q[len(pre):].split("/")[0] for q in list(self.files) + list(self.dirs) if q.startswith(pre) and q != p})
 
 
 class _WFile:
@@ -127,6 +164,17 @@ class _OSPath:
         self.fs._pt("exists", p)
         return p in self.fs.files or p in self.fs.dirs
 
+    def isfile(self, p):
+        return p in self.fs.files
+
+    def isdir(self, p):
+        return p in self.fs.dirs
+
+    basename = staticmethod(posixpath.basename)
+    split = staticmethod(posixpath.split)
+    splitext = staticmethod(posixpath.splitext)
+    normpath = staticmethod(posixpath.normpath)
+
     def getsize(self, p):
         self.fs._pt("getsize", p)
         if p not in self.fs.files:
@@ -145,6 +193,21 @@ class OSFacade:
 
     def fsync(self, fd):
         return self.fs.fsync(fd)
+
+    def replace(self, src, dst):
+        return self.fs.replace(src, dst)
+
+    def rename(self, src, dst):
+        return self.fs.replace(src, dst)
+
+    def remove(self, p):
+        return self.fs.remove(p)
+
+    def unlink(self, p):
+        return self.fs.remove(p)
+
+    def listdir(self, p):
+        return self.fs.listdir(p)
 
     def getcwd(self):
         return "/"
@@ -252,6 +315,22 @@ def crash_image(log, p, choose, model="F"):
         elif k == "write":
             cur = pending[path]
             pending[path] = op[2] if len(cur) == 0 else cur + op[2]
+        elif k == "rename":
+            # the file (with whatever part of its data is still unsynced) now lives under the new name.  Model F is the optimistic
+            # one: the directory operation itself is taken as durable (data=ordered journals); the DATA is durable only if synced.
+            dst = op[2]
+            if path in pending:
+                pending[dst] = pending.pop(path)
+                if pending[dst] is not None:
+                    durable.pop(dst, None)              # the old content of dst is gone with the rename
+                    created.add(dst); entry_durable.add(dst)
+            elif path in durable:
+                durable[dst] = durable[path]; pending.pop(dst, None)
+                created.discard(dst)
+            durable.pop(path, None)
+            created.discard(path); entry_durable.discard(path)
+        elif k == "unlink":
+            pending.pop(path, None); durable.pop(path, None); created.discard(path)
         elif k == "fsync":
             data = pending.pop(path, None)
             if data is not None:
